@@ -61,7 +61,13 @@ def build(rng, c):
     st += pre[:pos]
     if c["mode"]:
         st.append({"k": "bits", "v": c["mode"]})
-    st += pre[pos:]
+    if "second" in c:
+        pos2 = min(max(c["pos2"], pos), len(pre))
+        st += pre[pos:pos2]
+        st.append({"k": "bits", "v": c["second"]})
+        st += pre[pos2:]
+    else:
+        st += pre[pos:]
     if any(s["k"] == "global" for s in st):
         st.append({"k": "label", "nm": "_entry"})
     st += group(rng, 3)
@@ -89,6 +95,12 @@ def run(ctx):
     rng = random.Random(ctx.seed)
     place = gen(ctx, "place")
     sw = gen(ctx, "switch")
+    tw = gen(ctx, "twice")
+    tw = [c for c in tw if "data" not in c["pre"]]      # nothing that emits code between the two directives
+    if quick:
+        rng.shuffle(tw)
+        tw = tw[:300]
+    sw = sw + tw
     if quick:
         rng.shuffle(place)
         place = place[:500]
